@@ -149,6 +149,8 @@ func main() {
 	res.Info["grid"] = map[string]any{"modes": mn, "routes": rn, "stream": []bool{false, true}, "engines": []string{"sherpa", "olla"}, "endpoints": []int{1, 2}}
 	res.Info["rule"] = "one evaluation = one (engine, route family, endpoint count, failure mode, stream flag) cell = one client request; non-trivial = the failure was actually produced (no backend delivered a 2xx completion); distinct = distinct (cell, client status, content type) fingerprints"
 	res.Assume("completion horizon 12 s real time while every configured timeout is >= 30 s", "natural hand-off order between the proxy goroutine and the translating goroutine (not forced)")
+	esec()
+	res.Info["E-sec"] = "refusals by the admission chain (429 after the burst of a 6/min limit, 413 for a body over 2 KiB) on the Anthropic route (passthrough on and off, stream on and off) and the proxy route, both engines: status, non-empty body, Anthropic error object on the Anthropic route"
 	res.Finish()
 }
 
